@@ -164,12 +164,12 @@ def selftest_property(ctx, prop: str, ss: SourceSet):
             bad = [r for r in res if r.verdict != report.HOLDS]
             ctx.undecided(f"{prop}.selftest", f"benign:{bid}", "-",
                           f"false alarm on benign variant `{bid}`: {[(r.rule, r.verdict, r.detail[:80]) for r in bad][:3]}")
-    # behaviour-preserving refactorings written by sub-agents for this property (benign/<prop>-r/refactor-k.patch)
+    # behaviour-preserving refactorings written by sub-agents for this property (benign/<prop>-r*/refactor-k.patch: all hold-out rounds)
     import glob
     import os
-    bdir = os.path.join(os.path.dirname(os.path.dirname(os.path.dirname(os.path.abspath(__file__)))), "benign", f"{prop}-r")
-    for pth in sorted(glob.glob(os.path.join(bdir, "refactor-*.patch"))):
-        bid = f"agent:{os.path.basename(pth)[:-6]}"
+    broot = os.path.join(os.path.dirname(os.path.dirname(os.path.dirname(os.path.abspath(__file__)))), "benign")
+    for pth in sorted(glob.glob(os.path.join(broot, f"{prop}-r*", "refactor-*.patch"))):
+        bid = f"agent:{os.path.basename(os.path.dirname(pth))}/{os.path.basename(pth)[:-6]}"
         with open(pth, encoding="utf-8") as fh:
             ms = apply_unified_diff(ss, fh.read())
         if ms is None:
